@@ -147,7 +147,8 @@ Definition step (w : world) (o : op) : world * obs * list event :=
   | OLoad r t s kind =>
       match aget (w_roots w) r with
       | Some rt =>
-          match load_mast (get_store w s) kind rt with
+          (* the Root reaches LoadMast through its JSON text *)
+          match load_mast (get_store w s) kind (root_via_json rt) with
           | (tr, Ok (fm, m)) => (set_tree w t (Tree (TCfg fm kind s) m), ObOk, tr)
           | (tr, rr) => (w, fail_obs rr, tr)
           end
